@@ -65,7 +65,22 @@ func genRollback(c *core.Ctx) (RollbackCfg, RollbackWL) {
 		}
 		wl.SleepMS = append(wl.SleepMS, sl)
 	}
-	if g.Intn(3) == 0 {
+	if g.Intn(4) == 0 {
+		// the persister's multi-group in-memory merge under fire: unsafe batches over very few documents keep landing
+		// while several merge workers run, so that whole groups are obsoleted before their merge is introduced; every
+		// epoch persisted on the way stays on the list
+		cfg.Index.Unsafe, cfg.Index.Workers, cfg.Index.MaxMemMerge, cfg.Index.MinSegsMem = true, 2+g.Intn(2), 1, 2
+		cfg.Index.KeepSnapshots, cfg.Index.SamplingMS, cfg.NDocs = 4, 0, 2+g.Intn(2)
+		wl.Batches = genWriterBatches(g, 0, cfg.NDocs, n)
+		for i := range wl.SleepMS {
+			if g.Intn(4) != 0 {
+				wl.SleepMS[i] = 0
+			}
+		}
+		for w := 1; w <= 1+g.Intn(2); w++ {
+			wl.Others = append(wl.Others, genWriterBatches(g, w, cfg.NDocs, 6+g.Intn(n)))
+		}
+	} else if g.Intn(3) == 0 {
 		cfg.ReopenAt = 1 + g.Intn(n)
 	} else if g.Intn(2) == 0 {
 		for w := 1; w <= 1+g.Intn(2); w++ {
